@@ -68,7 +68,7 @@ CHECKS = {
 }
 
 NOT_YET = {p: "check still under construction in this revision (the specification exists, the registered command does not yet)"
-           for p in ("C02", "C05", "C07", "C11", "C14", "C18", "C19", "C20")}    # id -> reason (properties not claimed)
+           for p in ("C07", "C11")}    # id -> reason (properties not claimed)
 
 
 def main():
